@@ -335,6 +335,15 @@ def run_ops(fa, schema, data, seed, rereads, skip_generate=False, raw=None):
             # (return_record_name is left out: the library documents that it takes every by-name
             # branch for a record, which by construction differs between in-place and by-name forms)
             res.append(fa.schemaless_reader(io.BytesIO(enc), schema, return_named_type=True, return_named_type_override=True))
+            if raw is not None:
+                # the two sides in different forms (one defines a type where the other names it)
+                res.append(fa.schemaless_reader(io.BytesIO(enc), copy.deepcopy(raw), schema, return_named_type=True))
+                res.append(fa.schemaless_reader(io.BytesIO(enc), schema, copy.deepcopy(raw), return_named_type=True))
+        if raw is not None:
+            fo = io.BytesIO()
+            fa.writer(fo, copy.deepcopy(raw), list(data))
+            res.append(list(fa.reader(io.BytesIO(fo.getvalue()), reader_schema=schema, return_named_type=True)))
+            res.append([list(b) for b in fa.block_reader(io.BytesIO(fo.getvalue()), reader_schema=schema, return_named_type=True)])
         return res
 
     out["named_reads"] = obs(named_reads)
@@ -355,7 +364,9 @@ def run_ops(fa, schema, data, seed, rereads, skip_generate=False, raw=None):
         return res
 
     out["tuple_data"] = obs(tuple_data)
-    out["validate"] = obs(lambda: [fa.validate(d, schema, raise_errors=False) for d in data] + [fa.validate(object, schema, raise_errors=False)])
+    from fastavro.validation import validate_many
+    out["validate"] = obs(lambda: [fa.validate(d, schema, raise_errors=False) for d in data] + [fa.validate(object, schema, raise_errors=False)]
+                          + [validate_many(list(data), schema, raise_errors=False), validate_many(list(data) + [object], schema, raise_errors=False)])
     out["pcf"] = obs(lambda: to_parsing_canonical_form(schema))
     out["fingerprint"] = obs(lambda: fingerprint(to_parsing_canonical_form(schema), "CRC-64-AVRO"))
 
